@@ -182,3 +182,25 @@ Proof.
   unfold rank_values, rank_count. destruct rev; split;
     auto using dense_rank_Q_range, dense_rank_Q_nogaps.
 Qed.
+
+(* a strictly increasing list of scores is ranked 1, 2, ..., n; a merely non-decreasing one is not (so a fast path
+   "already in rank order" must test > and not >=) *)
+From Coq Require Import Sorting.Sorted.
+Theorem dense_rank_Q_of_strictly_increasing xs :
+  StronglySorted Qlt xs -> dense_rank_Q xs = seq 1 (length xs).
+Proof.
+  intros H. unfold dense_rank_Q.
+  rewrite (dense_rank_of_strictly_increasing Qc Qc_ltb Qc_eq_dec Qc_ltb_irrefl Qc_ltb_trans).
+  - rewrite map_length. reflexivity.
+  - induction H as [|a l Hs IH Hall]; cbn [map]; constructor; [exact IH|].
+    rewrite Forall_forall in *. intros y Hy. apply in_map_iff in Hy. destruct Hy as [y0 [<- Hy0]].
+    unfold slt. apply Qc_ltb_true. apply (proj2 (Q2Qc_lt _ _)). apply Hall. exact Hy0.
+Qed.
+
+Example non_decreasing_is_not_enough :
+  exists xs, StronglySorted Qle xs /\ dense_rank_Q xs <> seq 1 (length xs).
+Proof.
+  exists [1; 1]%Q. split.
+  - repeat constructor; apply Qle_refl.
+  - vm_compute. discriminate.
+Qed.
